@@ -645,6 +645,33 @@ class C06(HttpProp):
                         f"http POST as hyph=latest:1 hyph=1 snapshot b:{','.join(b)}", "http GET snap - hyph=1 absent e"]
             ops += ["http POST av hyph=latest:1 hyph=1 history chunks:1,1,1,1,1,1,1", "http GET gcv hyph=anc:1:1 hyph=1 absent e", "reopen", "walk 1"]
             out.append(Case(f"c06-cls-{name}", ops, mode="http"))
+        # payloads that ARE well-formed compressed streams / containers (a storage layer that compresses
+        # or sniffs content must still give back the uploaded bytes, not what they decode to)
+        import gzip, zlib, bz2, lzma, base64, json as _json
+        text = b"taskchampion " * 40
+        streams = {"gzip": gzip.compress(text, mtime=0), "gzip-small": gzip.compress(b"hi", mtime=0), "zlib": zlib.compress(text),
+                   "zlib-small": zlib.compress(b"x"), "deflate-raw": zlib.compress(text)[2:-4], "bz2": bz2.compress(text),
+                   "xz": lzma.compress(text), "zstd-magic": bytes([0x28, 0xB5, 0x2F, 0xFD]) + text[:40],
+                   "base64": base64.b64encode(text[:60]), "json": _json.dumps({"v": 1, "data": [1, 2, 3]}).encode(),
+                   "gzip-of-gzip": gzip.compress(gzip.compress(text, mtime=0), mtime=0)}
+        ops = []
+        for name, bs in streams.items():
+            body = "b:" + ",".join(str(x) for x in bs)
+            ops += [f"http POST av hyph=latest:1 hyph=1 history {body}", "http GET gcv hyph=anc:1:1 hyph=1 absent e",
+                    f"http POST as hyph=latest:1 hyph=1 snapshot {body}", "http GET snap - hyph=1 absent e"]
+        ops += ["reopen", "walk 1", "http GET snap - hyph=1 absent e"]
+        out.append(Case("c06-streams", ops, mode="http"))
+        # an upload whose commit fails is not served afterwards, neither before nor after the retry
+        for k in range(sizes(tier, 4, 24)):
+            ops = ["http POST av hyph=nil hyph=1 history b:1", "http POST av hyph=latest:1 hyph=1 history b:2"]
+            for j in range(rng.randint(1, 3)):
+                plan = rng.choice(["3:before", "2:before", "3:before"])
+                ops += [f"fault {plan}", f"http POST av hyph=latest:1 hyph=1 history b:66,{j},{k}", "http GET gcv hyph=latest:1 hyph=1 absent e",
+                        f"http POST av hyph=latest:1 hyph=1 history r:{100 + j}", "http GET gcv hyph=anc:1:1 hyph=1 absent e"]
+                if rng.random() < 0.5:
+                    ops += ["fault 3:before", f"http POST as hyph=latest:1 hyph=1 snapshot b:67,{j}", "http GET snap - hyph=1 absent e"]
+            ops += ["walk 1"]
+            out.append(Case(f"c06-commitfault-{k}", ops, {"only": "sqlite", "faults": True}, mode="http"))
         if tier == "thorough":
             for j, n in enumerate((MAX - 1, MAX)):
                 ops = ["http POST av hyph=nil hyph=1 history b:1", f"http POST av hyph=latest:1 hyph=1 history big:{n}:5",
@@ -666,13 +693,18 @@ class C06(HttpProp):
         fails = []
         sent = {}        # version id -> (parent, body)
         snap = {}        # client -> (version, body)
+        snaps_ok = set()
         for i, (o, ri, rm) in enumerate(trace):
             if o.startswith("http "):
                 h, r = HOp(o), HResp(ri)
                 if h.route == "av" and r.status == 200 and r.xv.isdigit():
                     sent[r.xv] = (h.seg, h.body())
-                if h.route == "av" and h.valid() and r.status not in (200, 409):
+                if h.route == "av" and h.valid() and r.status not in (200, 409) and not (case.meta.get("faults") and r.status >= 500):
                     fails.append(f"op {i} `{o[:80]}`: upload refused with {r.status}")
+                if h.route == "gcv" and r.status == 200 and r.xv not in sent and case.meta.get("faults"):
+                    fails.append(f"op {i}: get-child-version returned version {r.xv} (`{r.body[:40]}`), which no acknowledged upload created")
+                if h.route == "snap" and r.status == 200 and case.meta.get("faults") and h.cid in snap and snap[h.cid] != (r.xv, r.body) and (r.xv, r.body) not in snaps_ok:
+                    pass
                 if h.route == "as" and r.status == 200:
                     snap[h.cid] = (h.seg, h.body())
                 if h.route == "gcv" and r.status == 200:
